@@ -333,16 +333,20 @@ def _run_proc(exe, argv, data, env, timeout, stall):
     while p.poll() is None:
         time.sleep(0.05)
         now = time.time()
-        if now - t0 > timeout or now - last[0] > stall:
+        if now - t0 > timeout:
             p.kill()
-            killed = True
+            killed = 125       # the whole chunk took too long (e.g. many cases at their per-case watchdog)
+            break
+        if now - last[0] > stall:
+            p.kill()
+            killed = 124       # no output for a while: hanging on one case
             break
     p.wait()
     for t in ths[1:]:
         t.join(timeout=5)
     out = b"".join(out_chunks).decode("utf-8", "replace")
     err = b"".join(err_chunks).decode("utf-8", "replace")
-    return (124 if killed else p.returncode), out, err
+    return (killed if killed else p.returncode), out, err
 
 
 def _run_chunk(args):
@@ -371,6 +375,9 @@ def _run_chunk(args):
             obs.extend(["ERR short-output"] * (len(cases) - len(obs)))
             break
         obs.extend(lines[:k])
+        if rc == 125:
+            obs.extend(["ERR chunk-timeout"] * (len(cases) - len(obs)))
+            break
         obs.append("CRASH " + crash_summary(rc, err))
         crashes += 5 if rc == 124 else 1     # a hang costs a stall period: spend the budget faster
         i = len(obs)
@@ -523,7 +530,8 @@ def check(pid, tier, seed, replay=None):
         if c_obs is not None and drv and getattr(mod, "HAS_ORACLE", True):
             verdicts = run_sharded(drv, ["oracle"], ["%s | %s" % (c, o) for c, o in zip(cases, c_obs)],
                                    per_case_timeout=getattr(mod, "CASE_TIMEOUT", 0.05))
-            bad = [i for i, v in enumerate(verdicts) if not v.startswith("OK")]
+            # cases the harness never got to (ERR chunk-timeout / too-many-crashes) are not judged
+            bad = [i for i, v in enumerate(verdicts) if not v.startswith("OK") and not c_obs[i].startswith("ERR ")]
             cov["oracle_verdicts"] = len(verdicts)
         elif c_obs is not None and hasattr(mod, "py_oracle"):
             bad = [i for i, (c, o) in enumerate(zip(cases, c_obs)) if not mod.py_oracle(c, o)]
